@@ -629,6 +629,9 @@ func (p NewChannelReqPayload) MarshalBinary() ([]byte, error) {
 	if p.Freq%100 != 0 {
 		return b, errors.New("lorawan: Freq must be a multiple of 100")
 	}
+	if p.Freq >= 2400000000 && p.Freq%200 != 0 {
+		return b, errors.New("lorawan: Freq must be a multiple of 200 for 2.4GHz frequencies")
+	}
 	if p.MaxDR > 15 {
 		return b, errors.New("lorawan: max value of MaxDR is 15")
 	}
